@@ -65,14 +65,15 @@ def params_key(kw):
 
 def job(item):
     """one indicator: all variants x series x prefixes -> recorded traces (no verdicts here)"""
-    entry, vs, specs, prefix_sets = item
+    entry, vs, specs, prefix_sets = item[:4]
+    nvs = item[4] if len(item) > 4 else [len(vs)] * len(specs)      # how many of the parameter sets each series gets
     traces, stats = [], {"calls": 0, "skipped": 0, "not_series": set(), "exc": {}}
     with contextlib.redirect_stdout(io.StringIO()):
         for si, sp in enumerate(specs):
             c = D.build_series(sp)
             c2 = D.build_series((sp[0], sp[1], sp[2] + 1000) + tuple(sp[3:]))
             ps = D.pscale_of(c)
-            for kw in vs:
+            for kw in vs[:nvs[si]]:
                 prefixes = prefix_sets[si]
                 traces += record(entry, kw, sp, prefixes, c, c2, ps, stats)
     stats["not_series"] = sorted(stats["not_series"])
@@ -129,12 +130,19 @@ def plan(ctx, cat):
         if not e["sequential"]:
             continue
         vs = D.variants(e, rng, nvar, sweep=not ctx.quick)
-        items.append((e, vs, list(specs), [PREFIXES for _ in specs]))
+        sp = list(specs)
+        pre = [PREFIXES for _ in specs]
+        nv = [len(vs)] * len(specs)
         # one long series: closed-form kernels whose powers overflow make EARLY values depend on the input length
-        items.append((e, vs[:ctx.pick(2, 4)], [LONG], [LONG_PREFIXES]))
+        sp.append(LONG)
+        pre.append(LONG_PREFIXES)
+        nv.append(ctx.pick(2, 4))
         if not ctx.quick:
             # every prefix length on two short series (defaults and one perturbed parameter set)
-            items.append((e, vs[:2], [("random", 120, 7), ("spike", 120, 7)], [list(range(1, 121)), list(range(1, 121))]))
+            sp += [("random", 120, 7), ("spike", 120, 7)]
+            pre += [list(range(1, 121)), list(range(1, 121))]
+            nv += [2, 2]
+        items.append((e, vs, sp, pre, nv))
     return items
 
 
@@ -173,7 +181,8 @@ def run(ctx):
     res = D.pmap(job, items)
     crashed = []
     # a child that died (memory-unsafe kernel) is retried one parameter set at a time; what dies again is listed
-    retry = [(it[0], [kw], it[2], it[3]) for it, r in zip(items, res) if r[0] == "CRASH" for kw in it[1]]
+    retry = [(it[0], [kw], it[2], it[3], [1 if j < n else 0 for n in it[4]])
+             for it, r in zip(items, res) if r[0] == "CRASH" for j, kw in enumerate(it[1])]
     res = [r for r in res if r[0] != "CRASH"]
     if retry:
         for it, r in zip(retry, D.pmap(job, retry)):
